@@ -192,8 +192,24 @@ func (s *specGenState) next(rng *rand.Rand, i int) specCase {
 	if s.pending == 0 {
 		for {
 			cfg := s.cfg(rng)
-			s.ast = gen.Random(rng, cfg)
+			switch rng.Intn(8) {
+			case 0:
+				// the shapes the candidate finders recognise (prefixes, fixed-distance sets, counted
+				// repetitions around the analysers' limits, landmark chains), when they stay in the fragment
+				s.ast = biasedAst(rng, cfg)
+			case 1:
+				s.ast = rewriteAst(rng, cfg)
+			default:
+				s.ast = gen.Random(rng, cfg)
+			}
 			s.opts = cfg.Opts
+			// the hand-made shapes are not written for every option set (ExplicitCapture turns their groups off,
+			// RE2 has no backreferences): keep one only if it is in the fragment and compiles
+			if k := s.ast; k != nil {
+				if _, err := safeCompile(k.Print(cfg.Opts), regexOptions(cfg.Opts)); err != nil || !k.InFragment() {
+					s.ast = gen.Random(rng, cfg)
+				}
+			}
 			if cfg.AllowNullableQuant || s.ast.InFragment() {
 				break
 			}
